@@ -116,6 +116,8 @@ def decision_table(fx):
                 if T.short(fn, 2) != "HashMap::get" or not args:
                     return None
                 recv = A.vstr(args[0])
+                if len(args) > 1:
+                    interp.trace.append(("lookup-key", A.vstr(args[1])))
                 if "installed" in recv:
                     return A.NONE if i == "absent" else A.some(("adt", IN, "Installed", (("ipv4", ("sym", "old_ipv4")), ("ipv6", ("sym", "old_ipv6")))))
                 if "self" in recv:
@@ -132,14 +134,32 @@ def decision_table(fx):
                 continue
             kinds = set()
             vals = []
+            loop_form = any(ev[0] == "next" for p in paths for ev in p.trace)
             for p in paths:
+                if loop_form:
+                    # the lookups sit in a `for name in ..` body that pushes what the closure form returns: one iteration = one
+                    # decision; its result is what it appends (nothing appended = None)
+                    if not any(ev[0] == "next" and ev[2] == "Some" for ev in p.trace):
+                        continue
+                    if p.end == "abort":
+                        kinds.add("unreachable")
+                        continue
+                    if p.end != "iter-end":
+                        kinds.add("other")        # the iteration leaves the loop / the function
+                        continue
+                    pushed = [c[2][1] for c in p.calls("Vec::push", "VecDeque::push_back") if len(c[2]) == 2]
+                    v = A.NONE if not pushed else (A.some(pushed[0]) if len(pushed) == 1 else ("sym", "several-pushes"))
+                    vals.append(v)
+                    kinds.add(classify_value(v))
+                    continue
                 if p.end == "abort":
                     kinds.add("unreachable")
                     continue
                 vals.append(p.ret)
                 kinds.add(classify_value(p.ret))
             kind = kinds.pop() if len(kinds) == 1 else "ambiguous:%s" % sorted(kinds)
-            rows.append((e, i, {"sp": t.get("sp"), "value": vals[-1] if vals else None, "values": vals}, kind))
+            keys = sorted({ev[1] for p in paths for ev in p.trace if ev[0] == "lookup-key"})
+            rows.append((e, i, {"sp": t.get("sp"), "value": vals[-1] if vals else None, "values": vals, "keys": keys}, kind))
     return n, t, None, None, rows
 
 
